@@ -28,6 +28,7 @@ type SpecEnv struct {
 	bound  map[string]SVal // quantifier variables, results, pure-function parameters (highest priority)
 	locals bool // identifiers may refer to local cells of x.fn (loop invariants, asserts)
 	depth  int
+	noAlts bool // inside an instantiated alternative of an exists: nested exists stay plain
 	header *ssa.BasicBlock
 	callSite bool // evaluating a callee's contract at a call site: the callee's ghost call counters are not the caller's
 }
@@ -221,7 +222,7 @@ func (e *SpecEnv) eval(s *SExpr) SVal {
 			q = "exists"
 		}
 		qt := Term{fmt.Sprintf("(%s (%s) %s)", q, strings.Join(decls, " "), body.T.S), SBool}
-		if s.Op == "exists" && len(s.Vars) == 1 && e.x != nil && e.cur != nil && e.depth < 3 {
+		if s.Op == "exists" && len(s.Vars) == 1 && e.x != nil && e.cur != nil && e.depth < 3 && !e.noAlts {
 			// equivalent reformulation that spares the solver the search for a witness:
 			// (exists i. B) == B[c1] || ... || B[cn] || (exists i. B) for any terms c;
 			// candidates are the integer locals of the current state
@@ -253,7 +254,32 @@ func (e *SpecEnv) eval(s *SExpr) SVal {
 						if sort == SStr {
 							ct = stringT
 						}
-						inst := e.with(map[string]SVal{s.Vars[0].Name: {c, ct}}).eval(s.Args[0])
+						ie := e.with(map[string]SVal{s.Vars[0].Name: {c, ct}})
+						ie.noAlts = true
+						inst := ie.eval(s.Args[0])
+						alts = append(alts, inst.T)
+					}
+				}
+				if sort == SInt {
+					// the last element of a slice-valued local (the witness after an append)
+					var sk []*ssa.Alloc
+					for k, v := range e.cur.cells {
+						if al, ok := k.(*ssa.Alloc); ok {
+							if t, ok := v.(Term); ok && t.Sort == SSlice {
+								sk = append(sk, al)
+							}
+						}
+					}
+					gosort.Slice(sk, func(i, j int) bool { return sk[i].Pos() < sk[j].Pos() })
+					for _, al := range sk {
+						c := Sub(SlLen(e.cur.cells[al].(Term)), IntLit(1))
+						if seen[c.S] || len(alts) >= 14 {
+							continue
+						}
+						seen[c.S] = true
+						ie := e.with(map[string]SVal{s.Vars[0].Name: {c, intT}})
+						ie.noAlts = true
+						inst := ie.eval(s.Args[0])
 						alts = append(alts, inst.T)
 					}
 				}
@@ -872,7 +898,27 @@ func (e *SpecEnv) call(s *SExpr) SVal {
 			a := args[0]
 			hn, hs := heapName(stringT), ArraySort(SPtr, SStr)
 			w.declare("SpecSeq", "(declare-sort SpecSeq 0)")
-			return SVal{w.UF("strlist", "SpecSeq", a.T, e.cur.Heap(hn, hs)), nil}
+			hp := e.cur.Heap(hn, hs)
+			t := w.UF("strlist", "SpecSeq", a.T, hp)
+			if !strings.Contains(t.S, "!q") && !strings.Contains(t.S, "hv!") && !strings.Contains(t.S, " a!") && !e.u.seqFacts[t.S] {
+				// the abstraction has the length and the elements of the slice it abstracts
+				if e.u.seqFacts == nil {
+					e.u.seqFacts = map[string]bool{}
+				}
+				e.u.seqFacts[t.S] = true
+				nt := e.u.NameTerm(t, "seq")
+				e.u.AssumeRaw(Eq(w.UF("sq.len", SInt, nt), SlLen(a.T)))
+				at := w.UF("sq.at", SStr, nt, Term{"i!sq", SInt})
+				e.u.AssumeRaw(Term{fmt.Sprintf("(forall ((i!sq Int)) (! (=> (and (<= 0 i!sq) (< i!sq %s)) (= %s %s)) :pattern (%s)))", SlLen(a.T).S, at.S, Select(hp, Elem(a.T, Term{"i!sq", SInt})).S, at.S), SBool})
+				return SVal{nt, nil}
+			}
+			return SVal{t, nil}
+		case "seqlen":
+			evalArgs()
+			return SVal{w.UF("sq.len", SInt, args[0].T), intT}
+		case "seqat":
+			evalArgs()
+			return SVal{w.UF("sq.at", SStr, args[0].T, args[1].T), stringT}
 		case "now":
 			// ghost clock (nanoseconds); the value at function entry is a constant
 			if c, ok := e.cur.cells["ghost.now"].(Term); ok {
@@ -1002,6 +1048,9 @@ func (e *SpecEnv) applyPure(pf *PureFunc, args []SVal) SVal {
 	if p := e.u.eng.typesPkgFor(pf.Pkg); p != nil {
 		pe.pkg = p
 	}
+	if pf.Opaque {
+		return e.applyOpaque(pf, &pe, args)
+	}
 	if pf.Body == nil {
 		var ts []Term
 		for i, a := range args {
@@ -1044,6 +1093,94 @@ func (e *SpecEnv) applyPure(pf *PureFunc, args []SVal) SVal {
 	n.locals = false
 	n.depth = e.depth + 1
 	return n.eval(pf.Body)
+}
+
+// opaqueDef: an opaque spec function f(params) = body is the uninterpreted function
+// spec.f(params, heaps read by body) together with its definition, quantified over parameters and
+// heaps (the usual heap-parametrised encoding of heap-dependent specification functions).
+type opaqueDef struct {
+	name  string
+	heaps [][2]string // name, sort
+	sorts []string
+	ret   string
+	gt    types.Type
+}
+
+func (e *SpecEnv) applyOpaque(pf *PureFunc, pe *SpecEnv, args []SVal) SVal {
+	u := e.u
+	if u.opaqueDefs == nil {
+		u.opaqueDefs = map[string]*opaqueDef{}
+	}
+	key := pf.Pkg + "::" + pf.Name
+	def := u.opaqueDefs[key]
+	if def == nil {
+		def = &opaqueDef{name: "spec." + sanitize(pf.Name)}
+		u.opaqueDefs[key] = def // (a recursive use would see the incomplete entry)
+		sym := &State{cells: map[interface{}]Value{}, heaps: map[string]Term{}, gen: &Gen{kind: "sym"}, u: u}
+		sym.alloc = Term{"alloc!sym", SInt}
+		vars := map[string]SVal{}
+		var decls, names []string
+		for i, p := range pf.Params {
+			if p.Type == "_" {
+				e.fail("opaque func %s: polymorphic parameter", pf.Name)
+			}
+			gt, sort := pe.resolveType(p.Type)
+			v := Term{fmt.Sprintf("a!%d", i), sort}
+			vars[p.Name] = SVal{v, gt}
+			decls = append(decls, fmt.Sprintf("(%s %s)", v.S, sort))
+			names = append(names, v.S)
+			def.sorts = append(def.sorts, sort)
+		}
+		n := pe.with(nil)
+		n.bound = vars
+		n.vars = map[string]SVal{}
+		n.locals = false
+		n.depth = e.depth + 1
+		n.noAlts = true
+		n.cur, n.old = sym, sym
+		body := n.eval(pf.Body)
+		if strings.Contains(body.T.S, "alloc!sym") {
+			e.fail("opaque func %s depends on the allocation counter", pf.Name)
+		}
+		def.gt, def.ret = pe.resolveType(pf.Ret)
+		if def.ret == SReal {
+			body.T = ToReal(body.T)
+		}
+		def.heaps = sym.symOrder
+		var hs []string
+		for _, h := range def.heaps {
+			hv := "hv!" + sanitize(h[0])
+			decls = append(decls, fmt.Sprintf("(%s %s)", hv, h[1]))
+			names = append(names, hv)
+			hs = append(hs, h[1])
+		}
+		u.W.declare(def.name, fmt.Sprintf("(declare-fun %s (%s) %s)", def.name, strings.Join(append(append([]string{}, def.sorts...), hs...), " "), def.ret))
+		appl := def.name
+		if len(names) > 0 {
+			appl = "(" + def.name + " " + strings.Join(names, " ") + ")"
+			u.AssumeRaw(Term{fmt.Sprintf("(forall (%s) (! (= %s %s) :pattern (%s)))", strings.Join(decls, " "), appl, body.T.S, appl), SBool})
+		} else {
+			u.AssumeRaw(Term{fmt.Sprintf("(= %s %s)", appl, body.T.S), SBool})
+		}
+	}
+	if len(args) != len(def.sorts) {
+		e.fail("opaque func %s: %d arguments, want %d", pf.Name, len(args), len(def.sorts))
+	}
+	var ts []Term
+	for i, a := range args {
+		t := a.T
+		if def.sorts[i] == SReal {
+			t = ToReal(t)
+		}
+		ts = append(ts, t)
+	}
+	for _, h := range def.heaps {
+		ts = append(ts, e.cur.Heap(h[0], h[1]))
+	}
+	if len(ts) == 0 {
+		return SVal{Term{def.name, def.ret}, def.gt}
+	}
+	return SVal{app(def.ret, def.name, ts...), def.gt}
 }
 
 func isUntypedNil(t types.Type) bool {
